@@ -27,6 +27,8 @@ func main() {
 	only := fs.Int("case", -1, "run only this case index")
 	gov := fs.Bool("gov", false, "include governance token delisting")
 	dir := fs.Bool("directed", false, "boundary-directed stream")
+	flood := fs.Bool("flood", false, "hub: four or five tokens of one chain with a backlog of about a hundred transfers each")
+	nocap := fs.Bool("nocap", false, "do not cap the deposited value per denom below 2^255 (supply overflow stream)")
 	cons := fs.Bool("consistent", false, "with -hostile: executions stay within the contract's nonce and timeout rules")
 	many := fs.Bool("many", false, "more than 100 pending batches of one token before the restart")
 	fs.Parse(os.Args[2:])
@@ -36,7 +38,9 @@ func main() {
 	stats := map[string]int{}
 	directed = *dir
 	manyBatches = *many
+	floodMode = *flood
 	consistentExec = *cons
+	noCapDeposit = *nocap
 	switch suite {
 	case "hub", "genesis", "det", "blocks":
 		genesisMode = suite == "genesis"
